@@ -157,3 +157,102 @@ Proof.
            ++ exact (cok_plain_spec L).
            ++ exact (eok_plain_spec tblb e L).
 Qed.
+
+(* ---- trees without embedded trees ------------------------------------------------------------------------------------------------ *)
+Definition eok_none (first : bool) (par : option tagname) (lid : N) (roots : list node) : bool := false.
+
+Lemma tree_ok6_no_emb L aok tok cok eok sy : forall n d f p,
+  tree_ok6 L aok tok cok eok_none sy d f p n = true -> tree_ok6 L aok tok cok eok sy d f p n = true.
+Proof.
+  induction n as [tag attrs ch IH|c|ch IH| |lid roots IH] using node_ind'; intros d f p H; cbn [tree_ok6] in H |- *; try discriminate; try exact H.
+  apply andb_true_iff in H as [H Hch]. rewrite H. cbn [andb].
+  fold (kids_ok6 L aok tok cok eok_none sy (d + 1) (Some tag)) in Hch. fold (kids_ok6 L aok tok cok eok sy (d + 1) (Some tag)).
+  assert (K : forall f0, kids_ok6 L aok tok cok eok_none sy (d + 1) (Some tag) f0 ch = true -> kids_ok6 L aok tok cok eok sy (d + 1) (Some tag) f0 ch = true).
+  { clear Hch. induction IH as [|x r Hx _ IHr]; intros f0 Hch; [reflexivity|]. cbn [kids_ok6] in *.
+    apply andb_true_iff in Hch as [H1 H2]. now rewrite (Hx _ _ _ H1), (IHr _ H2). }
+  exact (K true Hch).
+Qed.
+
+Lemma events6_no_emb L aok tok cok sy acan tev ed1 ed2 wa : forall n d f p,
+  tree_ok6 L aok tok cok eok_none sy d f p n = true -> events6 acan tev sy ed1 wa f p n = events6 acan tev sy ed2 wa f p n.
+Proof.
+  induction n as [tag attrs ch IH|c|ch IH| |lid roots IH] using node_ind'; intros d f p H; cbn [tree_ok6] in H; try discriminate; try reflexivity.
+  apply andb_true_iff in H as [_ Hch]. fold (kids_ok6 L aok tok cok eok_none sy (d + 1) (Some tag)) in Hch.
+  cbn [events6]. f_equal. f_equal.
+  fold (kids_events6 acan tev sy ed1 wa (Some tag)). fold (kids_events6 acan tev sy ed2 wa (Some tag)).
+  assert (K : forall f0, kids_ok6 L aok tok cok eok_none sy (d + 1) (Some tag) f0 ch = true ->
+              kids_events6 acan tev sy ed1 wa (Some tag) f0 ch = kids_events6 acan tev sy ed2 wa (Some tag) f0 ch).
+  { clear Hch. induction IH as [|x r Hx _ IHr]; intros f0 Hch; [reflexivity|]. cbn [kids_ok6 kids_events6] in *.
+    apply andb_true_iff in Hch as [H1 H2]. now rewrite (Hx _ _ _ H1), (IHr _ H2). }
+  exact (K true Hch).
+Qed.
+
+(* C07: all 16 option tuples, every class, CDATA included; embedded trees excluded (their octets carry their own version
+   byte and string table: the outer event holds different octets, which decode to the same events - embedded_doc_decodes) *)
+Theorem options_decode_equal_union tblb TBL L v1 v2 s1 s2 a1 a2 k tag attrs ch bs1 bs2 :
+  let o1 := mk_opts v1 s1 k a1 in let o2 := mk_opts v2 s2 k a2 in
+  vals_ok L = true -> side_u L = true -> tag_tbl_ok (enc_env (to_blang L) o1) = true ->
+  tree_ok6 L (aok_u L) (tok_u L k) (cok_plain L) eok_none (is_syncml (to_blang L)) 0 true None (NElt tag attrs ch) = true ->
+  find (fun x => l_id x =? l_id L) TBL = Some L ->
+  v1 < 4 -> v2 < 4 -> l_pub_num L < 4294967296 -> l_pub_num L <> 0 ->
+  (match l_pub_text L with Some p => okb (P.B p) = true | None => True end) ->
+  len bs1 < 4294967296 -> len bs2 < 4294967296 ->
+  enc_wbxml tblb (to_blang L) o1 [NElt tag attrs ch] = EOk bs1 ->
+  enc_wbxml tblb (to_blang L) o2 [NElt tag attrs ch] = EOk bs2 ->
+  exists ev1 ev2, S.decode_lang TBL (l_id L) bs1 = Some ev1 /\ S.decode_lang TBL (l_id L) bs2 = Some ev2 /\
+                  merge_chars ev1 = merge_chars ev2.
+Proof.
+  cbv zeta. intros HV HSD HTB HT HFind Hv1 Hv2 Hn1 Hn0 Hpt Hl1 Hl2 E1 E2.
+  assert (PID : forall v s a, header_public_id (enc_env (to_blang L) (mk_opts v s k a)) < 4294967296 /\
+                              header_public_id (enc_env (to_blang L) (mk_opts v s k a)) <> 0 /\
+                              match header_pid (enc_env (to_blang L) (mk_opts v s k a)) with
+                              | Some p => okb p = true | None => True end).
+  { intros v s a. unfold header_public_id, header_pid, header_public_id. cbn [e_anonymous enc_env make_env e_lang to_blang bl_pub_num bl_pub_text o_anonymous].
+    destruct a; cbn [negb andb].
+    - rewrite andb_false_r. split; [lia|]. split; [lia|exact I].
+    - split; [exact Hn1|]. split; [exact Hn0|]. destruct ((l_pub_num L =? 1) && true); [|exact I].
+      destruct (l_pub_text L); [exact Hpt|exact I]. }
+  destruct (PID v1 s1 a1) as (P1 & P2 & P3). destruct (PID v2 s2 a2) as (Q1 & Q2 & Q3).
+  destruct (strict_decode_union tblb TBL L (mk_opts v1 s1 k a1) tag attrs ch bs1 HV HSD HTB (tree_ok6_no_emb _ _ _ _ _ _ _ _ _ _ HT) HFind Hv1 P1 P2 P3 Hl1 E1)
+    as (d1 & ev1 & _ & _ & _ & D1' & M1).
+  destruct (strict_decode_union tblb TBL L (mk_opts v2 s2 k a2) tag attrs ch bs2 HV HSD HTB (tree_ok6_no_emb _ _ _ _ _ _ _ _ _ _ HT) HFind Hv2 Q1 Q2 Q3 Hl2 E2)
+    as (d2 & ev2 & _ & _ & _ & D2' & M2).
+  exists ev1, ev2. split; [exact D1'|]. split; [exact D2'|]. rewrite M1, M2. unfold doc_events6. cbn [merge_chars]. f_equal. f_equal. f_equal.
+  exact (events6_no_emb L _ _ _ _ _ _ _ _ _ _ _ _ _ HT).
+Qed.
+
+(* ---- (b) what the octets of an embedded tree decode to --------------------------------------------------------------------------- *)
+(* The outer document reports one character event holding emb_doc (events6, NTree).  Those octets are the output of the
+   same encoder on the embedded tree with the embedded language and embedded_opts; decoded with the embedded language
+   they yield the events of the normalised embedded tree (one level: WBXML_MAX_EMBEDDED_DEPTH = 1, so the embedded tree
+   has no embedded tree itself in practice; the statement does not need that). *)
+Theorem embedded_doc_decodes tblb TBL (e : env) lid L' tag attrs ch :
+  e_ignore_empty e = e_remove_blanks e ->
+  find_lang tblb lid = Some (to_blang L') ->
+  let o' := embedded_opts e in let e' := enc_env (to_blang L') o' in
+  vals_ok L' = true -> side_u L' = true -> tag_tbl_ok e' = true ->
+  tree_ok6 L' (aok_u L') (tok_u L' (o_keep_ws o')) (cok_plain L') (eok_plain tblb e' L') (is_syncml (e_lang e')) 0 true None (NElt tag attrs ch) = true ->
+  find (fun x => l_id x =? l_id L') TBL = Some L' ->
+  e_version e < 4 -> header_public_id e' < 4294967296 -> header_public_id e' <> 0 ->
+  (match header_pid e' with Some p => okb p = true | None => True end) ->
+  emb_doc tblb e lid [NElt tag attrs ch] <> [] -> len (emb_doc tblb e lid [NElt tag attrs ch]) < 4294967296 ->
+  exists d' evs, emb_doc tblb e lid [NElt tag attrs ch] = S.serialize d' /\ S.strict_doc d' = true /\
+     S.decode_lang TBL (l_id L') (emb_doc tblb e lid [NElt tag attrs ch]) = Some evs /\
+     merge_chars evs = merge_chars (doc_events6 tblb L' e' (acan_u L') (tev_u L' e' (o_keep_ws o')) (NElt tag attrs ch)).
+Proof.
+  intros Ho HF. cbv zeta. intros HV HSD HTB HT HFind Hv Hp1 Hp0 Hpid Hne Hlen.
+  assert (Ee : make_env (to_blang L') (e_use_strtbl e) (e_ignore_empty e) (e_remove_blanks e) (e_version e) false = enc_env (to_blang L') (embedded_opts e)).
+  { unfold enc_env, embedded_opts. cbn [o_use_strtbl o_keep_ws o_version o_anonymous]. now rewrite negb_involutive, Ho. }
+  unfold emb_doc in *. rewrite HF in *. cbv zeta in *. rewrite Ee in *.
+  destruct (parse_nodes tblb (enc_env (to_blang L') (embedded_opts e)) None [NElt tag attrs ch] _) as [[body st0]|c] eqn:PN; [|now elim Hne].
+  assert (EW : enc_wbxml tblb (to_blang L') (embedded_opts e) [NElt tag attrs ch] = EOk (fill_header (enc_env (to_blang L') (embedded_opts e)) st0 ++ body)).
+  { rewrite enc_wbxml_form_local. unfold enc_body. cbv zeta. now rewrite PN. }
+  destruct (strict_decode_union tblb TBL L' (embedded_opts e) tag attrs ch _ HV HSD HTB HT HFind Hv Hp1 Hp0 Hpid Hlen EW)
+    as (d' & evs & HS & Hst & _ & HD & HM).
+  exists d', evs. auto.
+Qed.
+
+(* ---- normal forms ------------------------------------------------------------------------------------------------------------------- *)
+(* the vObject rule on the text of a CDATA section *)
+Lemma cdata_piece_idem sy c : cdata_piece sy (NText (cdata_piece sy (NText c))) = cdata_piece sy (NText c).
+Proof. cbn [cdata_piece]. destruct (sy && beq c [10]) eqn:B; [now rewrite andb_false_r|now rewrite B]. Qed.
